@@ -20,6 +20,7 @@ pub struct ExecCfg {
     pub sched: Vec<usize>,
     pub max_steps: usize,
     pub switch_percent: u64,
+    pub yield_after: bool,
 }
 
 impl ExecCfg {
@@ -38,6 +39,7 @@ impl ExecCfg {
                 .collect(),
             max_steps: args.num("max-steps", 5000) as usize,
             switch_percent: args.num("switch", 30),
+            yield_after: args.flag("yield-after"),
         }
     }
 }
@@ -92,6 +94,7 @@ pub fn explore(cfg: &ExecCfg, out: &mut TraceWriter, reset: Value, mut make: imp
             ranges: case.ranges,
             max_steps: cfg.max_steps,
             record_atoms: cfg.atoms,
+            yield_after: cfg.yield_after,
         };
         let res = sched::run(rc, case.bodies, strat);
         if res.outcome != Outcome::Completed || !res.panics.is_empty() {
